@@ -22,6 +22,7 @@ For the WHOLE resolution the driver executes (`resolve`, every Cfg / world / fam
                                `firstUnavailable archs self r.install` is `none`, for every `self`;
 * `unavailable_is_F14a`        whatever the oracle reports on the model's own output carries an install_if
                                rule, so the driver's class is "F14a", never "unlisted";
+* `multiarch_all_available`    the same for every member of a family with distinct architecture names;
 * `resolve_available`          the full statement (a `def`), `not_resolve_available` from the F14a witness;
 * `single_arch_unaffected`     with one architecture `resolve` runs exactly as with the empty set.
 -/
@@ -241,6 +242,33 @@ theorem unavailable_is_F14a (archs : List (Text × Universe)) (self : Text) (u :
     exact absurd this (by simp)
   · exact ⟨h1, by simpa [List.isEmpty_iff] using h2⟩
 
+/-- with distinct architecture names (Go map keys) every entry of the family is what `lookupT` finds -/
+theorem lookupT_of_mem_distinct {α} {m : List (Text × α)} (hd : m.Pairwise (fun x y => x.1 ≠ y.1))
+    {k : Text} {v : α} (h : (k, v) ∈ m) : lookupT m k = some v := by
+  induction m with
+  | nil => simp at h
+  | cons e es ih =>
+    rw [List.pairwise_cons] at hd
+    rcases List.mem_cons.mp h with rfl | h1
+    · simp [lookupT]
+    · have hne : e.1 ≠ k := hd.1 (k, v) h1
+      have := ih hd.2 h1
+      unfold lookupT at this ⊢
+      simpa [List.find?_cons, hne] using this
+
+/-- T `multiarch_all_available` (the property as worded, for the family as a whole): two or more
+architectures with distinct names resolved together for one world — no architecture's install set holds a
+package version that another requested architecture lacks, unless the install_if expansion fired in that
+architecture's run (F14a). -/
+theorem multiarch_all_available (archs : List (Text × Universe)) (hl : archs.length ≠ 1)
+    (hd : archs.Pairwise (fun x y => x.1 ≠ y.1)) (w : List Text) :
+    ∀ self u, (self, u) ∈ archs → ∀ (c : Cfg), c.u = u → ∀ r : Resolution,
+      resolve c w (disqualifyDifference archs self) = .ok r → "F02b" ∉ r.flags →
+      ∀ p ∈ r.install, ∀ a other, (a, other) ∈ archs → a ≠ self → availableOn other p = true := by
+  intro self u hm c hc r h hf
+  exact (firstUnavailable_none_iff archs self r.install).mp
+    (resolve_available_partial archs self u hl (lookupT_of_mem_distinct hd hm) c hc w r h hf)
+
 /-- the full statement of the property for the whole resolution (FALSE on the unchanged tree: F14a) -/
 def resolve_available : Prop :=
   ∀ (archs : List (Text × Universe)) (self : Text) (u : Universe), archs.length ≠ 1 →
@@ -299,6 +327,8 @@ example (r : Resolution)
     (h : resolve (Driver.Resolver.cfgOf archA) ["top".toList] (disqualifyDifference famOk "a".toList) = .ok r)
     (hf : "F02b" ∉ r.flags) : Driver.Resolver.firstUnavailable famOk "a".toList r.install = none :=
   resolve_available_partial famOk "a".toList archA (by decide) rfl _ rfl _ r h hf
+
+example : famOk.Pairwise (fun x y => x.1 ≠ y.1) := by decide
 
 /-- the F14a run raises "F02b": the flag hypothesis is exactly what separates it -/
 example : runIds x86 ["top"] (disqualifyDifference famF14a "x86_64".toList) = some ([0, 2, 1], ["F02b"]) := by
